@@ -5,12 +5,13 @@ import worldhist as WH
 import worldgen as W
 import radlib as R
 ID = "C07"
-LEAN_TARGETS = ["Rsp.Props.C07", "Rsp.Props.Parse", "Rsp.Props.C06", "Rsp.Tie.C03"]
+LEAN_TARGETS = ["Rsp.Props.C07", "Rsp.Props.C07Discover", "Rsp.Props.Parse", "Rsp.Props.C06", "Rsp.Tie.C03", "Rsp.Tie.C07"]
 THEOREMS = ["Rsp.Props.C07.readCharString_fits", "Rsp.Props.C07.readCharString_within", "Rsp.Props.C07.parseNaptr_tiles", "Rsp.Props.C07.query_rejects_oversize",
             "Rsp.Props.C07.answerRRs_within", "Rsp.Props.Parse.parse_some_wellformed", "Rsp.Props.C06.serialize_length",
-            "Rsp.Tie.C03.pwdLenBad_tie", "Rsp.Tie.C03.msmppLenBad_tie"]
+            "Rsp.Tie.C03.pwdLenBad_tie", "Rsp.Tie.C03.msmppLenBad_tie",
+            "Rsp.Props.C07.dec_length", "Rsp.Props.C07.hostport_fits", "Rsp.Props.C07.hostport_needs_seven", "Rsp.Props.C07.parseSrv_port_lt", "Rsp.Tie.C07.hostport_alloc_fits"]
 RULE = ("(a) DNS answers: NAPTR/SRV record data with character-string lengths at 0/255/beyond the record, record lengths 0..6, names with labels, pointers, loops and overlong labels, "
-        "several records, reported answer sizes below/at/above the 4096-octet buffer, plus bit-flipped and truncated answers; (b) the packet parser, serializer, rewrite stage, hidden-attribute re-encryption (every ciphertext length 0..255) and "
+        "several records, reported answer sizes below/at/above the 4096-octet buffer, plus bit-flipped and truncated answers; the same answers (and well-formed ones with every port width, equal and unequal priorities, matching/non-matching NAPTR services and flags) carried through the real discovery path dynamicconfig -> dynamicconfignaptr/dynamicconfigsrv -> mergesrvconf -> compileserverconfig; (b) the packet parser, serializer, rewrite stage, hidden-attribute re-encryption (every ciphertext length 0..255) and "
         "reply/F-Ticks log formatters on structured, mutated and boundary-length inputs (generators of C05/C06/C18); (c) whole-pipeline histories with mutated requests and replies under "
         "configurations with every rewrite rule form. Everything runs under ASan+UBSan. non-trivial = malformed/boundary input (not a plain valid one)")
 EXHAUSTIVE = {}
@@ -18,7 +19,7 @@ ASSUMPTIONS = ["sanitizers see heap/stack/global overflows, use-after-free, NULL
                "resolver buffer) are visible only through the model", "TLS peer certificate fields: see C15 (certificate engine)"]
 LEVEL_TEXT = ("PARTIAL (memory safety of C is not a Lean theorem). Lean 4 theorems give the index discipline of the modelled parsers for ALL inputs: DNS character strings fit their "
               "256-octet destinations and are copied from inside the record, an accepted NAPTR record is tiled exactly by its fields, oversized answers are never parsed, every record handed "
-              "to a parser lies inside the answer; accepted RADIUS packets are tiled exactly by their attributes; serialized length equals octets written. The models are tied to the code by "
+              "to a parser lies inside the answer; the host:port text built from any SRV record fits the block allocated for it (hostport_fits, tied to the allocation expression regenerated from the source by hostport_alloc_fits); accepted RADIUS packets are tiled exactly by their attributes; serialized length equals octets written. The models are tied to the code by "
               "differential runs, and the real code runs every generated input under ASan/UBSan.")
 LEVEL_NOTE = "Trusted: sanitizers, harness, generators; libresolv's record framing and name decoding (recorded, not modelled)."
 TECHNIQUE = "Lean 4 proof of bounds discipline on the parser models + differential correspondence + sanitizer-instrumented execution of generated malformed inputs"
@@ -123,6 +124,10 @@ def gen(rng, tier):
             cs_.append(Case("dnsq naptr %d %s" % (total, big.hex()), kind="dns-oversize", malformed=1))
         else:
             cs_.append(Case("dnsqx %s %d %s" % (kind, len(m), WH.mutate(rng, m + bytes(20))[: len(m)].hex()), kind="dns-mutated", malformed=1))
+    # what the discovery code makes of the answers (dynamicconfignaptr / dynamicconfigsrv: record selection, sort, host:port texts)
+    import dnsgen
+    for _ in range(500 if tier == "quick" else 12000):
+        cs_.append(Case(dnsgen.dyndns_line(rng, malformed=answer), kind="dns-discovery", malformed=1))
     # the parsers/formatters of the other properties, on their malformed streams
     for mod, cnt in (("C05", 0.4), ("C06", 0.3), ("C18", 0.02), ("C03", 0.6), ("C20", 0.5)):
         g = importlib.import_module("props." + mod)
